@@ -300,7 +300,23 @@ def f_sqlite_case_of_temporal_literals(prog, idxs, ctx):
     return False
 
 
+def f_null_typed_expression(prog, idxs, ctx):
+    """An expression whose static type is NullType: an operator applied directly to the null literal, or a case
+    expression all of whose branch values are null literals."""
+    def isnull(v):
+        return v is None or (v.get("k") == "lit" and v.get("v") is None)
+
+    for i in idxs:
+        for n in walk(prog["steps"][i]):
+            if n.get("k") == "case" and all(isnull(v) for _c, v in n["cases"]) and isnull(n.get("default")):
+                return True
+            if n.get("k") == "fn" and n["a"] and all(isnull(a) for a in n["a"][:1]) and n["op"] not in ("coalesce", "fill_null", "is_null", "is_not_null"):
+                return True
+    return False
+
+
 FEATURES = {
+    "null_typed_expression": f_null_typed_expression,
     "sqlite_case_of_temporal_literals": f_sqlite_case_of_temporal_literals,
     "mssql_offset_in_subquery": f_mssql_offset_in_subquery,
     "literal_with_pyformat_placeholder": f_literal_with_pyformat_placeholder,
